@@ -234,11 +234,11 @@ type Map15 struct {
 }
 
 type CaseC15 struct {
-	SrcT  string   `json:"srct"` // struct | ptr | map
-	DstT  string   `json:"dstt"` // struct | ptr | map
-	Src   SrcDesc  `json:"src"`
-	Maps  []Map15  `json:"maps"`
-	Split bool     `json:"split"` // put every mapping into its own AddInput call where the API allows
+	SrcT  string  `json:"srct"` // struct | ptr | map
+	DstT  string  `json:"dstt"` // struct | ptr | map
+	Src   SrcDesc `json:"src"`
+	Maps  []Map15 `json:"maps"`
+	Split bool    `json:"split"` // put every mapping into its own AddInput call where the API allows
 }
 
 var fromStruct = [][]string{nil, {"A"}, {"B"}, {"In"}, {"In", "S"}, {"In", "N"}, {"PIn"}, {"PIn", "S"}, {"M"}, {"M", "k"}, {"M", "j"}, {"M", "k", "j"}, {"M", "k", "S"}, {"MS"}, {"MS", "k"}, {"Any"}, {"Any", "S"}, {"Any", "k"}, {"L"}, {"Zz"}, {"hidden"}}
